@@ -87,7 +87,19 @@ func (fx *FnExec) emit(st *State, fr *frame, kind, detail string, goal Term, pro
 
 func (fx *FnExec) globalConst(pkg, name, srt string) Term {
 	n := "G." + sanitize(pkg) + "." + name
-	fx.declare(n, fmt.Sprintf("(declare-const %s %s)", n, srt))
+	if !fx.declared[n] {
+		fx.declare(n, fmt.Sprintf("(declare-const %s %s)", n, srt))
+		// package-level values exist before any function runs
+		fx.declare("alloc@0", "(declare-const alloc@0 Int)")
+		switch srt {
+		case "Int":
+			if !strings.HasPrefix(name, "&") {
+				fx.axiom("(<= " + n + " alloc@0)")
+			}
+		case "Iface":
+			fx.axiom("(<= (ival " + n + ") alloc@0)")
+		}
+	}
 	return n
 }
 
